@@ -176,7 +176,7 @@ def table_len(scratch, ver):
     return len(re.findall(r"^\((\d+), \($", s, re.M))
 
 
-def batches(scratch):
+def batches(scratch, tier="thorough"):
     tmpl = vlib.read(os.path.join(vlib.VERIF, "contracts/kani/c20_dispatch.rs"))
     inj = []
     specs = {}
@@ -188,8 +188,13 @@ def batches(scratch):
                         modules={"c20_dispatch": code}, prefix=prefix))
         specs[prefix + "::c20_dispatch::c20_contains_contract"] = dict(
             kind="complete", default_prop=PROP, functions=["wow_world_base::%s::trigger::AreaTrigger::contains" % ver])
-        specs[prefix + "::c20_dispatch::c20_verify_trigger_contract"] = dict(
-            kind="complete", default_prop=PROP, functions=["wow_world_base::%s::trigger::verify_trigger" % ver])
+        from lib import selection
+        tab_changed = selection.changed(["wow_world_base/src/extended/%s/trigger/triggers.rs" % ver, "wow_world_base/src/extended/%s/trigger/mod.rs" % ver])
+        if tier == "thorough" or ver == "vanilla" or tab_changed:
+            # the lookup is one macro (verify_trigger!) instantiated per expansion: the quick tier proves the vanilla
+            # instance (188 entries, ~2 min) and any expansion whose table files differ from the baseline; thorough proves all
+            specs[prefix + "::c20_dispatch::c20_verify_trigger_contract"] = dict(
+                kind="complete", default_prop=PROP, functions=["wow_world_base::%s::trigger::verify_trigger" % ver])
     specs["extended::vanilla::trigger::verif_kani::c20_dispatch::c20_canary"] = dict(canary=True)
     return [vlib.Batch("wow_world_base", FEATURES, {}, specs, stubbing=True, jobs=6, harness_timeout=1500, more_injections=inj)]
 
@@ -252,7 +257,7 @@ def check(tier, seed):
     scratch = vlib.make_scratch()
     try:
         verus_part(run, scratch)
-        bs = batches(scratch)
+        bs = batches(scratch, tier)
         vlib.run_batches(run, scratch, bs)
         run.trusted += ["Verus 0.2026.09.13 / Z3; Kani 0.68 / CBMC 6.11",
                         "machine arithmetic treated as mathematical: f32 is modelled as the reals (rounding, NaN, infinities ignored)",
